@@ -1,17 +1,20 @@
 #!/bin/sh
-# run_seeds.sh [seed-name ...]: apply each seeded change to /repo, run the quick check of the property it targets,
-# undo the change straight afterwards. Results go to /verif/seeded/<name>/result.txt (first 40 lines of output + exit code).
+# run_seeds.sh [seed-name ...]: try each seeded change against the quick check of the property it targets.
+# The change is applied in a scratch worktree of /repo (removed afterwards); XDIS_VERIF_REPO points the check at it, so
+# /repo itself and /verif/evidence are never touched.  Results go to /verif/seeded/<name>/result.txt.
 cd /verif
-if [ $# -eq 0 ]; then set -- $(ls seeded); fi
+if [ $# -eq 0 ]; then set -- $(ls seeded | grep -v RESULTS); fi
 for name in "$@"; do
   prop=$(echo $name | cut -c1-3)
-  git -C /repo checkout -- . 
-  if ! git -C /repo apply /verif/seeded/$name/patch.diff; then echo "$name: patch does not apply"; continue; fi
+  WT=/tmp/sr-$name; OUT=/tmp/sr-$name.out
+  git -C /repo worktree remove --force $WT 2>/dev/null; rm -rf $OUT
+  git -C /repo worktree add -q --detach $WT HEAD || continue
+  if ! git -C $WT apply /verif/seeded/$name/patch.diff; then echo "$name: patch does not apply"; git -C /repo worktree remove --force $WT; continue; fi
   s=$(date +%s)
-  /venv/bin/python vcheck.py $prop --tier quick > /tmp/seedrun.$name.out 2>/tmp/seedrun.$name.err; rc=$?
+  XDIS_VERIF_REPO=$WT XDIS_VERIF_OUT=$OUT /venv/bin/python vcheck.py $prop --tier quick > /tmp/seedrun.$name.out 2>/tmp/seedrun.$name.err; rc=$?
   e=$(date +%s)
-  git -C /repo checkout -- .
+  git -C /repo worktree remove --force $WT; rm -rf $OUT
   { echo "seed=$name property=$prop exit=$rc wall=$((e-s))s"; grep -v "^\[" /tmp/seedrun.$name.out | grep "violated\|tier=\|KNOWN" | cut -c1-400 | head -12; grep -c "^VIOLATION" /tmp/seedrun.$name.out | sed 's/^/VIOLATION lines: /'; grep "HARNESS" /tmp/seedrun.$name.err | head -3 | cut -c1-400; } > seeded/$name/result.txt
   head -1 seeded/$name/result.txt
 done
-git -C /repo status --short | head -3
+git -C /repo worktree prune
